@@ -88,6 +88,14 @@ macro_rules! scalar_type {
             $s.check(&format!("cmp_option/{tn}(Some,Some)"), json!(ord_s($ocmpf(Some(x), Some(y)))), &$exp_cmp);
             $s.check(&format!("const_cmp_for!(option)/{tn}"), json!(ord_s(const_cmp_for!(option; Some(x), Some(y)))), &$exp_cmp);
             $s.check(&format!("const_eq_for!(option)/{tn}"), json!(const_eq_for!(option; Some(x), Some(y))), &$exp_eq);
+            // assertc_eq! / assertc_ne! panic exactly when == / != is false (with and without a message)
+            let eqb = $exp_eq.as_bool().unwrap();
+            let p1 = std::panic::catch_unwind(|| assertc_eq!(x, y)).is_err();
+            let p2 = std::panic::catch_unwind(|| assertc_ne!(x, y)).is_err();
+            let p3 = std::panic::catch_unwind(|| assertc_eq!(x, y, "left ", x, " right ", y)).is_err();
+            let p4 = std::panic::catch_unwind(|| assertc_ne!(x, y, "both ", x)).is_err();
+            $s.check(&format!("assertc_eq!/{tn} panics"), json!([p1, p3]), &json!([!eqb, !eqb]));
+            $s.check(&format!("assertc_ne!/{tn} panics"), json!([p2, p4]), &json!([eqb, eqb]));
             $s.guard(&format!("std::cmp/{tn}"), json!(ord_s(x.cmp(&y))), &$exp_cmp);
         }
     }};
